@@ -121,8 +121,9 @@ def args_intact(rep, prog, O, f):
 
 
 def run(prog, rep, tier):
+    # private helpers (leading underscore) are analysed inside the public APIs that call them
     apis = [f for f in prog.funcs.values() if "random_state" in f.params and f.module.name.startswith("sempler.")
-            and f.module.name != "sempler.semi"]
+            and f.module.name != "sempler.semi" and (not f.name.startswith("_") or f.name.startswith("__") or f.qname in EXPECTED)]
     have = {f.qname for f in apis}
     for q in EXPECTED:
         if q not in have:
